@@ -236,3 +236,18 @@ package clickhouse_planner
 //@   ensures re: result1 == nil && expr.Fn == "=~" ==> cmpIs(result0, "==") && typeis(unbox(result0, "*sql.LogicalOp").clauses[0], "*sqlMatch") && intOf(result0) == 1
 //@   ensures nre: result1 == nil && expr.Fn == "!~" ==> cmpIs(result0, "==") && typeis(unbox(result0, "*sql.LogicalOp").clauses[0], "*sqlMatch") && intOf(result0) == 0
 //@   ensures other-operators-rejected: expr.Fn != "=" && expr.Fn != "!=" && expr.Fn != "=~" && expr.Fn != "!~" ==> result1 != nil
+
+// ---------------------------------------------------------------- log range aggregations in SQL (C08)
+
+// rate = rows in the bucket / range in seconds (the range as a real number of
+// seconds, not truncated); count_over_time = rows; bytes_rate = bytes / range in
+// seconds; bytes_over_time = bytes. fmtf(x) is the text %f renders for x.
+//@ spec fn rawText(o sql.SQLObject) string = unbox(o, "*sql.RawObject").val
+//@ func (*LRAPlanner).Process [C08]
+//@   flag checks=-index
+//@   check rate: result1 == nil && l.Func == "rate" ==> typeis(col, "*sql.RawObject") && rawText(col) == "toFloat64(COUNT()) / " + fmtf(real(l.Duration.Milliseconds()) / 1000)
+//@   check count-over-time: result1 == nil && l.Func == "count_over_time" ==> typeis(col, "*sql.RawObject") && rawText(col) == "toFloat64(COUNT())"
+//@   check bytes-rate: result1 == nil && l.Func == "bytes_rate" ==> typeis(col, "*sql.RawObject") && rawText(col) == "toFloat64(sum(length(_string))) / " + fmtf(real(l.Duration.Milliseconds()) / 1000)
+//@   check bytes-over-time: result1 == nil && l.Func == "bytes_over_time" ==> typeis(col, "*sql.RawObject") && rawText(col) == "toFloat64(sum(length(_string)))"
+//@   loop 1:
+//@     modifies elems(cols)
